@@ -61,9 +61,11 @@ class C08(PipelineCheck):
             'the same wrapper and schedule and must produce, per key lifetime, exactly the records seen at that branch\'s tail inside the tee; '
             'oracle 2 (join model): the branch outputs ordered by (causing input record, branch index, position) are joined by a 10-line model and '
             'must equal the tee\'s own output records (values and source event). non-trivial: >= 3 input items reach the tee and two branches emit '
-            'a different number of items, or a slot is reused; distinct = distinct (program, schedule)')
+            'a different number of items, or a slot is reused; distinct = distinct (program, schedule). About one case in seven puts an assert_ that fails '
+            'on one value into a branch: the tee must then end with on_error in the source event, and with the error, with which that branch '
+            'ends when run alone')
     assumptions = ['order of branch outputs inside one input item is branch order (the statement\'s "in branch order per source event")']
-    probe_names = ('branches>=3', 'join:zip', 'join:merge', 'join:combine_latest', 'reused_slot', 'unequal_rates', 'nested_tee',
+    probe_names = ('fatal_error_in_branch', 'branches>=3', 'join:zip', 'join:merge', 'join:combine_latest', 'reused_slot', 'unequal_rates', 'nested_tee',
                    'plain_mode', 'window_in_branch', 'silent_branch_lifetime')
     weights = {'tee_map': 5, 'filter': 6, 'flat_map': 4, 'map': 6, 'scan': 5, 'batch': 4, 'last': 3, 'to_list': 3, 'count': 3, 'take': 3,
                'first': 2, 'progress': 0, 'roll': 2, 'split': 2, 'group_by': 2, 'time_split': 0}
@@ -83,6 +85,18 @@ class C08(PipelineCheck):
         return {'op': 'tee_map', 'join': rng.choice(['zip', 'merge', 'combine_latest', 'combine_latest']), 'branches': bs}
 
     def gen(self, rng, tier):
+        case = self.gen0(rng, tier)
+        if rng.random() < 0.25:
+            # a fatal error raised inside one branch (assert_ failing on the value 7)
+            c2 = copy.deepcopy(case)
+            tee, _, _ = tee_taps(c2['program'])
+            b = rng.choice(tee['branches'])
+            b.insert(rng.randrange(len(b) + 1), {'op': 'assert_', 'pred': 'not7'})
+            if self.valid(c2):
+                return c2
+        return case
+
+    def gen0(self, rng, tier):
         parties, maxev = self.sizes(rng, tier)
         g = Gen(rng, weights=self.weights, max_nest=2, small=(tier == 'quick'))
         if rng.random() < 0.15:
@@ -128,6 +142,58 @@ class C08(PipelineCheck):
                                    values=rng.choice(['small', 'runs', 'dups', 'inc']))
         return {'program': program, 'events': events, 'end': rng.choice(['complete'] * 8 + ['error', 'dispose']), 'style': style, 'mode': 'mux'}
 
+    def expected_failure(self, case, program, plain, items):
+        """(source event, branch, canonical error, {branch: records alone}) of the first fatal error a branch raises when run
+        alone under the same wrapper and schedule; None when no branch fails."""
+        tee, path, i = tee_taps(program)
+        best = None
+        alone = {}
+        for bi, b in enumerate(tee['branches']):
+            prog2, tail2 = branch_alone(program, bi)
+            if plain:
+                c2, f2, e2 = run_plain(prog2, items, case['end'])
+            else:
+                c2, f2, e2 = run_mux(prog2, case['events'], case['end'], monitor=False)
+            if c2.aborted:
+                return 'aborted'
+            alone[bi] = [(s, k, key, v) for _, s, k, key, v in c2.taps.get(tail2, []) if k in ('N', 'C', 'D', 'E')]
+            if e2 is None and f2.terminal and f2.terminal[0] == 'error' and f2.terminal[1][1] != 'SourceError':
+                at = [s for _, s, k, _, _ in c2.taps.get('OUT', []) if k == 'e']
+                if at and (best is None or at[0] < best[0]):
+                    best = (at[0], bi, f2.terminal[1])
+        if best is None:
+            return None
+        return best + (alone,)
+
+    def check_failing(self, out, case, program, plain, ctx, final, exp):
+        """A branch ends with on_error when run alone: so does the tee, in the same source event, with that error,
+        and until then every branch emitted what it emits alone."""
+        at, bi, err, alone = exp
+        p = out.probes
+        p['fatal_error_in_branch'] += 1
+        out.faults['assert_failed_in_branch'] += 1
+        tee, path, i = tee_taps(program)
+        got_at = [s for _, s, k, _, _ in ctx.taps.get('OUT', []) if k == 'e']
+        if not final.terminal or final.terminal[0] != 'error' or final.terminal[1] != err or got_at[:1] != [at]:
+            out.add('branch-error-not-surfaced', 'tee_map', {'join': tee['join'], 'branch': bi, 'branch_alone_fails_with': err,
+                                                             'in_source_event': at, 'tee_terminal': final.terminal, 'at': got_at[:1]})
+        late = [(s, v) for _, s, k, _, v in ctx.taps.get('OUT', []) if k == 'N' and s > at]
+        if late and not out.violations:
+            out.add('output-after-branch-error', 'tee_map', {'failing_event': at, 'late': late[:10]})
+        for b2, b in enumerate(tee['branches']):
+            intee = ctx.taps.get('%s/%d:b%d/%d' % (path, i, b2, len(b)), [])
+            a = [(s, k, key, v) for _, s, k, key, v in intee if k in ('N', 'C', 'D', 'E') and s < at]
+            b_ = [x for x in alone[b2] if x[0] < at]
+            if a != b_ and not out.violations:
+                out.add('branch!=alone', 'tee_map', {'join': tee['join'], 'branch': b2, 'branch_ops': b, 'in_tee': a[:40], 'alone': b_[:40],
+                                                     'until_event': at})
+        out.digest = ctx.trace_digest() + repr(final.terminal)
+        out.nontrivial = at >= 2
+        p['join:' + tee['join']] += 1
+        if plain:
+            p['plain_mode'] += 1
+        return out
+
     def execute(self, case):
         out = Outcome()
         program = case['program']
@@ -146,6 +212,13 @@ class C08(PipelineCheck):
             return out
         failed = escaped is not None or (final.terminal and final.terminal[0] == 'error' and
                                          not (case['end'] == 'error' and final.terminal[1][1] == 'SourceError'))
+        if find_nodes(program, lambda n: n.get('pred') == 'not7') and escaped is None:
+            exp = self.expected_failure(case, program, plain, items if plain else None)
+            if exp == 'aborted':
+                p['aborted_work_budget'] += 1
+                return out
+            if exp is not None:
+                return self.check_failing(out, case, program, plain, ctx, final, exp)
         if failed:
             p['sut_error'] += 1
             out.add('raised', 'pipeline', {'error': repr(escaped) if escaped is not None else final.terminal[1]})
